@@ -1806,7 +1806,7 @@ pub fn gen_package(rng: &mut Rng, adversarial: bool) -> Package {
   if adversarial {
     for m in 0..n_modules {
       if g.rng.chance(25) {
-        let raw = match g.rng.below(12) {
+        let raw = match g.rng.below(15) {
           0 => {
             g.expect_diag = true;
             "export const { dx, dy } = pair();"
@@ -1839,6 +1839,11 @@ pub fn gen_package(rng: &mut Rng, adversarial: bool) -> Package {
             "export as namespace Glob;"
           }
           10 => "export function expando(): void {}\nexpando.prop = 1;\nexpando.fn2 = (a: number): number => a;",
+          // declaration merging: a function that shares its name with a type-side declaration written before it
+          // (the symbol then has an earlier declaration that is not an overload signature) or after it
+          12 => "export interface Merged { x: number; y: number }\nexport function Merged(x: number, y: number): Merged { return { x, y }; }",
+          13 => "export type MergedT = { v: string };\nexport function MergedT(v: string, n?: number): MergedT { return { v }; }",
+          14 => "export function MergedF(x: number): MergedF { return { x }; }\nexport interface MergedF { x: number }",
           _ => "export abstract class Abs { abstract get v(): number; abstract m(a: number): void; }",
         };
         g.feat(&format!("adv:{}", raw.split_whitespace().take(3).collect::<Vec<_>>().join("_")));
